@@ -240,10 +240,24 @@ pub const PATHS: [&str; 14] = [
     "/metadata/instance", "/metadata/identity/oauth2/token", "/machine", "/machine/", "/vmAgentLog", "/Metadata/Instance", "/", "/metadata/instance/compute/name",
     "/machine/..", "/a/../b", "/..", "/vmSettings", "/machine/374188df/x", "/metadata/scheduledevents",
 ];
-pub const QUERIES: [&str; 12] = [
+pub const QUERIES: [&str; 16] = [
+    "a=1&a1=2", "api=v&api-version=2018-02-01", "comp=x&comptype=a", "k&k-2=b&k=%20",
     "", "api-version=2018-02-01", "comp=goalstate", "comp=telemetrydata", "api-version=2018-02-01&format=json", "a=bc&ab=c", "x=1&x=1", "x=2&x=1&y", "keyOnly&comp=config&COMP=Again", "Api-Version=2018-02-01",
     "resource=https%3a%2f%2fvault.azure.net&api-version=2018-02-01", "type=Config&comp=config&..=1",
 ];
+
+pub fn gen_headers_dup(r: &mut Rng, host: &str) -> Vec<Value> {
+    // header names may be repeated (several Accept / Cookie / Via lines): each line is a client header
+    let mut hs = gen_headers(r, host);
+    for _ in 0..r.below(3) {
+        let n = *r.pick(&["Accept", "X-Custom-Header", "Cookie", "Via", "accept", "X-CUSTOM-HEADER"]);
+        for k in 0..1 + r.below(3) {
+            hs.push(json!([n, format!("dup{}-{}", k, r.below(1000))]));
+        }
+    }
+    r.shuffle(&mut hs);
+    hs
+}
 
 pub fn gen_headers(r: &mut Rng, host: &str) -> Vec<Value> {
     let mut hs = vec![json!(["Host", host])];
@@ -310,7 +324,7 @@ pub fn gen_req(r: &mut Rng, tok: &str, o: &ReqOpts) -> Value {
     }
     let q = *r.pick(&QUERIES);
     let target = if q.is_empty() { path } else { format!("{}?{}", path, q) };
-    let mut hs = gen_headers(r, o.host);
+    let mut hs = if o.with_resp && r.chance(1, 3) { gen_headers_dup(r, o.host) } else { gen_headers(r, o.host) };
     if o.spoof {
         for _ in 0..r.below(4) {
             let base = *r.pick(&["x-ms-azure-host-claims", "x-ms-azure-host-date", "x-ms-azure-host-authorization"]);
@@ -621,6 +635,21 @@ fn gen_c07(seed: u64, r: &mut Rng, procs: Value, tier: &str) -> Value {
 /// C11: one mode per endpoint per phase, bursts of identical denials from one caller and from concurrent
 /// connections, mixtures of allowed and denied; the published summaries are collected at the end.
 fn gen_c11(seed: u64, r: &mut Rng, procs: Value, tier: &str) -> Value {
+    // callers that differ only in one attribute the summary is keyed by: same user and executable, command
+    // lines sharing a long prefix (java -cp <classpath> MainA / MainB), or same command line, other user
+    let mut procs = procs;
+    let mut twins: Vec<u64> = Vec::new();
+    if r.chance(2, 3) {
+        let base = procs.as_array().unwrap().len() as u64;
+        let uid = *r.pick(&[1001u64, 1002, 1003]);
+        let exe = *r.pick(&EXES);
+        let prefix_len = *r.pick(&[20usize, 180, 240, 300, 1000, 4000]);
+        let common: String = (0..prefix_len).map(|i| (b'a' + (i % 26) as u8) as char).collect();
+        for (k, tail) in ["MainA", "MainB", "MainA --verbose"].iter().enumerate().take(2 + r.below(2) as usize) {
+            procs.as_array_mut().unwrap().push(json!({"pid": 3000 + k as u64 * 5, "tid": 3000 + k as u64 * 5, "uid": uid, "gid": uid, "exe": exe, "cmd": [exe.rsplit('/').next().unwrap_or(""), "-cp", common, tail], "known": true}));
+            twins.push(base + k as u64);
+        }
+    }
     let nprocs = procs.as_array().unwrap().len() as u64;
     let o = RuleOpts { allow_upper_paths: false, allow_dup_names: false, allow_missing_sections: false, allow_dangling: true };
     let mut steps = Vec::new();
@@ -657,6 +686,16 @@ fn gen_c11(seed: u64, r: &mut Rng, procs: Value, tier: &str) -> Value {
                     q["tok"] = json!(format!("t{}", tokn));
                 }
                 conns.push(json!({"proc": p, "dst": dst, "start_ms": r.below(5), "pipeline": false, "reqs": rq}));
+            }
+        }
+        // the look-alike callers each make the same request to IMDS (denied or not, as the rules say)
+        if !twins.is_empty() {
+            let target = format!("{}{}", r.pick(&RULE_PATHS).to_lowercase(), "?api-version=2018-02-01");
+            for tw in twins.iter() {
+                for _ in 0..1 + r.below(3) {
+                    tokn += 1;
+                    conns.push(json!({"proc": tw, "dst": "imds", "start_ms": r.below(5), "pipeline": false, "reqs": [{"method": "GET", "target": target, "headers": [["Host", host_name_of("imds")], ["Metadata", "true"]], "tok": format!("t{}", tokn)}]}));
+                }
             }
         }
         steps.push(json!({"t": "clients", "conns": conns}));
